@@ -30,11 +30,6 @@ fn gen(seed: u64, idx: u64, _tier: Tier) -> Plan {
     };
     if mode == Mode::F {
         s.source = if rng.chance(1, 2) { ConfigSource::File } else { ConfigSource::Env };
-        // the documented environment variable for the worker count is not honoured by the pinned
-        // tree (see C16); keep F-mode runs independent of that by using the file for >1 workers
-        if s.workers > 1 {
-            s.source = ConfigSource::File;
-        }
     } else {
         s.log_level = Some(*rng.pick(&[0u8, 0, 4]));
     }
